@@ -86,3 +86,106 @@ func VX_C22_year_range() {
 		vxAssert(got.Year() == y, "datetime-date/year-outside-range-is-not-silently-wrapped")
 	}
 }
+
+// ---------- calendar arithmetic: Date + span against the civil calendar
+
+func vxLeap(y int) bool { return (y%4 == 0 && y%100 != 0) || y%400 == 0 }
+
+func vxDaysIn(y, m int) int {
+	switch m {
+	case 4, 6, 9, 11:
+		return 30
+	case 2:
+		if vxLeap(y) {
+			return 29
+		}
+		return 28
+	}
+	return 31
+}
+
+func vxFloorDiv(a, b int) int {
+	q := a / b
+	if a%b != 0 && (a < 0) != (b < 0) {
+		q--
+	}
+	return q
+}
+
+// representative years: every class of the leap rule and the transitions between them
+var vxYears = [...]int{1899, 1900, 1999, 2000, 2023, 2024, 2100}
+
+// an arbitrary valid date in one of the representative years (one job per year)
+func vxCivil(name string) (int, int, int) {
+	// quick: one leap year whose neighbours are not; thorough: every class of the leap rule
+	y := 2024
+	if vxTier() != 0 {
+		y = vxYears[vxSplit(name+".year", len(vxYears))]
+	}
+	m, d := vxInt(name+".m"), vxInt(name+".d")
+	vxAssume(m >= 1 && m <= 12 && d >= 1)
+	vxAssume(d <= vxDaysIn(y, m))
+	return y, m, d
+}
+
+// pin a symbolic year that is known to lie within `radius` of base to its concrete value
+// (one path per value), so that the reference leap rule is evaluated on constants
+func vxPinYear(v, base, radius int) int {
+	for k := -radius; k <= radius; k++ {
+		if v == base+k {
+			return base + k
+		}
+	}
+	vxAssume(false)
+	return v
+}
+
+// date + n months (years folded in): the same day of the target month, clamped to its length
+func VX_C22_add_months() {
+	y, m, d := vxCivil("date")
+	months := vxInt("months")
+	if vxTier() == 0 {
+		vxAssume(months >= -14 && months <= 14)
+	} else {
+		vxAssume(months >= -30 && months <= 30)
+	}
+	got := MakeDate(y, m, d).AddDateSpan(MakeDateSpan(0, months, 0))
+	total := (m - 1) + months
+	ry := vxPinYear(y+vxFloorDiv(total, 12), y, 3) // |months| <= 30: at most 3 years away
+	rm := total - (ry-y)*12 + 1
+	rd := d
+	if dim := vxDaysIn(ry, rm); rd > dim {
+		rd = dim
+	}
+	vxAssert(got.Year() == ry && got.Month() == rm, "add-months/lands-in-the-target-month")
+	vxAssert(got.Day() == rd, "add-months/keeps-the-day-clamped-to-the-month-length")
+}
+
+// date + n days, |n| <= 31: the civil date n days later
+func VX_C22_add_days() {
+	y, m, d := vxCivil("date")
+	days := vxInt("days")
+	vxAssume(days >= -31 && days <= 31)
+	got := MakeDate(y, m, d).AddDateSpan(MakeDateSpan(0, 0, days))
+	ry, rm, rd := y, m, d+days
+	for i := 0; i < 2; i++ {
+		if rd > vxDaysIn(ry, rm) {
+			rd -= vxDaysIn(ry, rm)
+			rm++
+			if rm == 13 {
+				rm, ry = 1, ry+1
+			}
+		}
+	}
+	for i := 0; i < 2; i++ {
+		if rd < 1 {
+			rm--
+			if rm == 0 {
+				rm, ry = 12, ry-1
+			}
+			rd += vxDaysIn(ry, rm)
+		}
+	}
+	vxAssert(got.Year() == ry && got.Month() == rm && got.Day() == rd, "add-days/is-the-civil-date-n-days-later")
+}
+
